@@ -79,7 +79,7 @@ Hypothesis Hsel : find_visible cis cl (p_changeset par) (pstamp cis par) (o_thre
 
 Lemma time_travel_any : forall is_rel t par' us refs' pend,
   before_bound cis o (nth_error ps (S p)) t ->
-  (forall ck, In ck cl -> (c_vidx s < c_vidx ck)%nat -> stamp cis ck <= t -> c_visible ck = true) ->
+  (forall e, current_at cis cl t = Some e -> (c_vidx s < c_vidx e)%nat -> c_visible e = true) ->
   nth_error ps' p = Some par' -> nth_error results p = Some us ->
   apply_updates_up_to is_rel t (p_refs par') us = ApplyOk refs' pend ->
   exists e r', later (Some s) (current_at cis cl t) = Some e /\ nth_error refs' j = Some r' /\ ref_carries r' e.
@@ -129,7 +129,7 @@ Proof.
       exists e, (applied_ref is_rel t us j (set_ref s r)). split; [reflexivity|]. split; [exact Href|].
       set (ue := child_update cis e j).
       assert (c_visible e = true) as Hevis
-        by (apply Hbetween; [eapply nth_error_In; exact He|lia|exact Hpe]).
+        by (apply (Hbetween e); [rewrite (current_at_pos cis t cl Hm), Epre; exact He|lia]).
       assert (m < nv)%nat as Hmnv.
       { apply (nv_covers_visible cis o cl (nth_error ps (S p)) s nv Heps Hvx Hsm Hne Hspos Hnv m e He); [lia|exact Hevis|].
         unfold before_bound in *. destruct (nth_error ps (S p)); [lia|exact I]. }
